@@ -68,21 +68,39 @@ def runApply {S : Type} (h : Hdr) (sm : Smoother Rat S) (t : Tail) : String :=
       (a.2, st.2 ++ [showVec a.1])) (freshScratch ls, [toString ls.length])
     joinSp r.2
 
+/-- `amg_cycle`: the PUBLIC `amg::cycle(rhs, x)` called three times on ONE object from the caller's `x`:
+`(f, x0)`, `(g, y0)`, `(A x0, x0)`; tail `5 f x0 g y0 (A x0) a b` -/
+def runCycle {S : Type} (h : Hdr) (sm : Smoother Rat S) (t : Tail) : String :=
+  if !hdrOk h || !t.fs.all (fun f => f.size == h.A.nrows) then badInput else
+  let prm := { h.prm with npre := t.npre, npost := t.npost, ncycle := t.ncycle, pre_cycles := t.pre_cycles }
+  match build prm (policy h) sm nonsingular h.A with
+  | .error e => showErr e
+  | .ok ls =>
+    match t.fs with
+    | [f, x0, g, y0, fs] =>
+      let r1 := Amg.cycle prm sm denseSolve ls (freshScratch ls) f x0
+      let r2 := Amg.cycle prm sm denseSolve ls r1.2 g y0
+      let r3 := Amg.cycle prm sm denseSolve ls r2.2 fs x0
+      joinSp [toString ls.length, showVec r1.1, showVec r2.1, showVec r3.1]
+    | _ => badInput
+
 def handle (op : String) (args : List String) : Option String :=
   match op with
-  | "amg_apply" | "amg_bmat" =>
+  | "amg_apply" | "amg_bmat" | "amg_cycle" =>
+    let run {S : Type} (h : Hdr) (sm : Smoother Rat S) (t : Tail) : String :=
+      if op == "amg_cycle" then runCycle h sm t else runApply h sm t
     match runP (do
         let h ← pHdr
         let rk ← pNat
         let pTail := pTail (op == "amg_bmat") h.A.nrows
         match rk with
-        | 0 => do let w ← pRat; let t ← pTail; pure (runApply h (jacobi w) t)
-        | 1 => do let t ← pTail; pure (runApply h (gaussSeidel : Smoother Rat Unit) t)
-        | 2 => do let t ← pTail; pure (runApply h (spai0 rabs) t)
-        | 3 => do let w ← pRat; let t ← pTail; pure (runApply h (ilu0 w) t)
+        | 0 => do let w ← pRat; let t ← pTail; pure (run h (jacobi w) t)
+        | 1 => do let t ← pTail; pure (run h (gaussSeidel : Smoother Rat Unit) t)
+        | 2 => do let t ← pTail; pure (run h (spai0 rabs) t)
+        | 3 => do let w ← pRat; let t ← pTail; pure (run h (ilu0 w) t)
         | 4 => do
             let deg ← pNat; let hi ← pRat; let lo ← pRat; let sc ← pBool; let t ← pTail
-            pure (runApply h (chebyshev { degree := deg, higher := hi, lower := lo, scale := sc }) t)
+            pure (run h (chebyshev { degree := deg, higher := hi, lower := lo, scale := sc }) t)
         | _ => fail) args with
     | some s => some s
     | none => some badInput
